@@ -8,6 +8,20 @@ HERE = os.path.dirname(os.path.dirname(os.path.abspath(__file__)))
 
 # id -> (level, technique, text, note, design_ref)
 CHECKS = {
+    'C02': ('exploration',
+            'Hypothesis generation of synthetic bead samples from a known bead law; ground-truth labels, true '
+            'curve (10 %), fit on true statistics, metamorphic relations (event order, channel count, seed)',
+            'get_transform_fxn is run end to end on generated samples (6..8 populations, 1..3 channels, blank, '
+            'piled-up, unknown entries, median/mean, clustering-channel choices): the labels must reproduce the '
+            'generating partition (0.2 %), MEF values must be paired with populations in brightness order with '
+            'unknown / piled-up ones excluded, fitted parameters must equal the fit to the true statistics, the '
+            'curve must be within 10 % of the generating law over the calibrated span, and results must be '
+            'reproducible for a fixed seed, under event permutation and for any number of channels calibrated at '
+            'once. EM and L-BFGS are involved: a sweep cannot exclude measure-zero pockets. One open finding '
+            '(C02-KF1, unequal population sizes).',
+            'Trusted: the generator (bead law evaluated in math floats). Imbalanced-size grouping failures are '
+            'the known finding; everything else is enforced.',
+            'DESIGN.md section 4, C02'),
     'C13': ('exploration',
             'callables enumerated by inspection x recipe table of argument shapes, driven by Hypothesis; '
             'before/after deep fingerprints of every argument; mutate-one-side independence of results; '
